@@ -1080,8 +1080,9 @@ func (t *Transaction) Catalog() *Catalog {
 }
 
 // Clean will clean the oplog and only keep up to the specified amount of events
-// and delete events that are older than the specified age.
-func (t *Transaction) Clean(minSize, maxSize int, minAge, maxAge time.Duration) {
+// and delete events that are older than the specified age. It returns the
+// number of removed events.
+func (t *Transaction) Clean(minSize, maxSize int, minAge, maxAge time.Duration) int {
 	// acquire write lock
 	t.mutex.Lock()
 	defer t.mutex.Unlock()
@@ -1135,6 +1136,8 @@ func (t *Transaction) Clean(minSize, maxSize int, minAge, maxAge time.Duration) 
 		t.catalog = clone
 		t.dirty = true
 	}
+
+	return dropped
 }
 
 // Expire will remove documents that are expired due to a TTL index.
